@@ -212,6 +212,36 @@ func (p c01) Run(c *fw.Ctx, idx int) fw.Result {
 		if (len(got.Errors) > 0) != (len(werrs) > 0) {
 			res.Violate("errors-mismatch", fmt.Sprintf("gateway reports %d errors, the reference %d", len(got.Errors), len(werrs)), match, full(map[string]any{"gateway_errors": got.Errors, "reference_errors": fmt.Sprint(werrs)}))
 		}
+		// the same operation text again on the same gateway with every Boolean variable flipped (another
+		// @skip/@include outcome): the statement holds for every variable assignment, whatever the
+		// gateway has planned before (plan cache)
+		if len(res.Violations) == 0 {
+			flipped := map[string]any{}
+			nflip := 0
+			for k, v := range vmm {
+				if b, ok := v.(bool); ok {
+					flipped[k] = !b
+					nflip++
+				} else {
+					flipped[k] = v
+				}
+			}
+			if nflip > 0 {
+				fv, _ := json.Marshal(flipped)
+				if want2, werrs2, cerr2 := rig.RefExec(superGql, gop, flipped, fed.NewReferenceResolver(l, u), root, nil); cerr2 == nil {
+					if got2, p2 := safeExecute(gw, text, fv); p2 == nil && got2.Err == nil {
+						res.Count("flipped_boolean_reexecutions", 1)
+						w2, g2 := ref.Canon(anyOf(want2)), ref.Canon(got2.Data)
+						if !got2.HasData {
+							g2 = "<no data>"
+						}
+						if w2 != g2 || (len(got2.Errors) > 0) != (len(werrs2) > 0) {
+							res.Violate("data-mismatch-after-flip", "the same operation with its Boolean variables flipped, executed on the same gateway, differs from the monolithic reference", withFact(match, "history", "same-text-other-booleans"), full(map[string]any{"flipped_variables": string(fv), "expected": truncate(w2, 3000), "observed": truncate(g2, 3000), "first_difference": firstDiff(w2, g2)}))
+						}
+					}
+				}
+			}
+		}
 		if len(got.Requests) >= 2 && nEnt >= 1 {
 			keys = append(keys, fw.HashKey(l.SuperSDL, l.Describe, text, vars))
 			if res.Sample == nil {
